@@ -4,6 +4,7 @@ import itertools
 import logging
 import os
 import pickle
+import uuid
 from enum import IntEnum
 from typing import Dict
 
@@ -215,7 +216,12 @@ def save_model(
 
     # Output metadata
     db_file = os.path.join(model_folder, model_name + ".pymoca_cache")
-    with open(db_file, "wb") as f:
+
+    # Write to a temporary file and move that into place when it is complete. Writing
+    # the cache file itself would expose a partly written file to concurrent readers,
+    # and two concurrent writers would mangle each other's data.
+    tmp_file = "{}.{}.tmp".format(db_file, uuid.uuid4().hex)
+    with open(tmp_file, "wb") as f:
         db = {}
 
         # Store version
@@ -289,6 +295,8 @@ def save_model(
         db["alias_relation"] = model.alias_relation
 
         pickle.dump(db, f, protocol=-1)
+
+    os.replace(tmp_file, db_file)
 
 
 def load_model(model_folder: str, model_name: str, compiler_options: Dict[str, str]) -> CachedModel:
